@@ -159,33 +159,18 @@ Definition prims_reached (c : cfg) (p : prog) : list string :=
 
 Definition run_abs := prims_reached.
 
-(* ---- purity of the tables, relative to an explicit list of known leaks ---- *)
-
-(* known findings on the unchanged tree (see /verif/KNOWN_FINDINGS.txt, property C08):
-   the include special form; the sys and import builders installed by StandardSetup. *)
-Definition known_leak_specials : list string := ["include"].
-Definition known_leak_bindings (c : cfg) : list string :=
-  match c with Bare => [] | _ => ["sys"; "import"] end.
-
-Definition mem (s : string) (l : list string) : bool := existsb (String.eqb s) l.
-
-Definition binding_ok (c : cfg) (b : string * bkind * string) : bool :=
-  match b with (n, k, f) => orb (is_value k) (orb (pure c f) (mem n (known_leak_bindings c))) end.
-
-Definition special_ok (c : cfg) (s : string * string) : bool := orb (pure c (snd s)) (mem (fst s) known_leak_specials).
+(* ---- purity of the tables ---- *)
 
 Definition binding_pure (c : cfg) (b : string * bkind * string) : bool :=
   match b with (_, k, f) => orb (is_value k) (pure c f) end.
 
-Definition tables_ok (c : cfg) : bool :=
-  andb (forallb (binding_ok c) (bindings c))
-       (andb (forallb (special_ok c) special_forms)
-             (andb (forallb (binding_pure c) implicit_prims) (forallb (pure c) vm_core))).
+Definition special_pure (c : cfg) (s : string * string) : bool := pure c (snd s).
 
-(* Go functions behind the known leaks of configuration c *)
-Definition leak_fns (c : cfg) : list string :=
-  flat_map (fun n => fns_named n (bindings c)) (known_leak_bindings c) ++
-  flat_map specials_named known_leak_specials.
+(* every primitive of the closure of configuration c is effect-free *)
+Definition tables_ok (c : cfg) : bool :=
+  andb (forallb (binding_pure c) (bindings c))
+       (andb (forallb (special_pure c) special_forms)
+             (andb (forallb (binding_pure c) implicit_prims) (forallb (pure c) vm_core))).
 
 (* the impure entries, as (table, script name, Go function) -- what the check reports *)
 Definition impure_entries (c : cfg) : list (string * string * string) :=
